@@ -57,11 +57,12 @@ PROPS = {
     },
     "C14": {
         "lean_modules": ["TableauVerif.Props.C14", "TableauVerif.Props.C14Pins"],
-        "oracles": ["c14.merge", "c14.fieldsep", "c14.fieldsubsep"],
+        "oracles": ["c14.merge", "c14.fieldsep", "c14.fieldsubsep", "c14.e2e"],
         "streams": [
             ("corr.parseroptions.mergeHeader", 3000, 200000),
             ("corr.confgen.fieldSep", 400, 4000),
             ("corr.protogen.record", 2000, 100000),
+            ("e2e.C14", 600, 20000),
         ],
         "assumptions": [
             "modelled: MergeHeader, GetSep/GetSubsep, parseFieldDescriptor(sep part), newBookParser/newTableParser option recording; "
